@@ -4,13 +4,13 @@ SPEC = {'level': 'exploration',
                  'times passed to Good/Attempt/Connected are > 0 (callers pass the current time; the internal check requires it)',
                  'only the current on-disk format (V4) is round-tripped; the asmap used for re-bucketing is the 59-byte unit-test asmap',
                  'internal consistency check evaluated on every call in 1/8 of the histories, otherwise at check points and at the end through a probe reload'],
- 'stages': [gen('vh_c37', 'c37_addrman', 1600, 30000, min_cases_quick=400,
+ 'stages': [gen('vh_c37', 'c37_addrman', 1200, 24000, min_cases_quick=400,
                 floors={'both-tables-populated': 0.2, 'multi-reference-address': 0.15, 'tried-collision-seen': 0.02, 'tried-entry-evicted-to-new': 0.005,
                         'roundtrip-nonempty': 0.8, 'reload-other-asmap': 0.1, 'reload-adopted': 0.15, 'internal-check-every-call': 0.05, 'hammer-mult==8': 0.01,
                         'select-new-only-hit': 0.05, 'op-getaddr': 0.1},
                 rule='operation histories over a colliding address pool; non-trivial = >=12 ops, both tables populated, >=1 round trip, multi-reference address or tried collision'),
             gen('vh_c37', 'up_addrman', 1500, 30000, rule='upstream addrman operation fuzz target with consistency checks (supplementary)'),
-            gen('vh_c37', 'up_addrman_serdeser', 150, 3000, rule='upstream fill + serialize/deserialize equality (supplementary)'),
+            gen('vh_c37', 'up_addrman_serdeser', 100, 2000, rule='upstream fill + serialize/deserialize equality (supplementary)'),
             gen('vh_c37', 'up_data_stream_addr_man', 3000, 60000, rule='upstream loader on arbitrary bytes (supplementary)')]}
 
 META = {'level_text': 'Generated operation histories (add/good/attempt/connected/collision resolution with mock-time jumps/select/getaddr/serialize-reload with same or '
